@@ -1,7 +1,7 @@
 #!/bin/sh
 # usage: tools/confirm_seeded.sh <seed-dir> ...   (each has patch.diff, demo.sh)
 # Confirms in a scratch worktree of /repo HEAD: patch applies, test suite passes with it, demo fails with it, demo passes without it.
-W=/tmp/wt-confirm
+W=${W:-/tmp/wt-confirm}
 [ -d "$W" ] || git -C /repo worktree add -q "$W" HEAD
 git -C "$W" checkout -q --detach "$(git -C /repo rev-parse HEAD)"
 for D in "$@"; do
